@@ -240,6 +240,15 @@ noncomputable def outcomeOf (d : Det) (p0 p1 : ℝ) (script : List Bool) : Bool 
     else if p1 / (p0 + p1) = 0 then (false, script)
     else (script.headD false, script.tail)
 
+/-- the divisor of `apply_measurement`: the conditional probability `probs[outcome] / Σ probs` of the chosen outcome
+    (1 if the total is not positive) -/
+noncomputable def measNormH {n : Nat} (ρ P0 P1 : DMat n) (d : Det) (script : List Bool) : ℝ :=
+  let p0 := probOf ρ P0
+  let p1 := probOf ρ P1
+  let os := outcomeOf d p0 p1 script
+  let total := p0 + p1
+  if 0 < total then (if os.1 then p1 else p0) / total else 1
+
 open Classical in
 /-- `DensityMatrix.apply_measurement([P0, P1], determinism)`: new state, outcome, remaining drawn bits, and whether both
     outcomes had positive probability -/
@@ -252,6 +261,14 @@ noncomputable def measureH {n : Nat} (ρ P0 P1 : DMat n) (d : Det) (script : Lis
   let total := p0 + p1
   let norm : ℝ := if 0 < total then (if os.1 then p1 else p0) / total else 1
   (((norm : ℂ))⁻¹ • (m * ρ * mᴴ), os.1, os.2, decide (0 < p0 ∧ 0 < p1))
+
+theorem measureH_fst {n : Nat} (ρ P0 P1 : DMat n) (d : Det) (script : List Bool) :
+    (measureH ρ P0 P1 d script).1 = ((measNormH ρ P0 P1 d script : ℝ) : ℂ)⁻¹ •
+      ((if (measureH ρ P0 P1 d script).2.1 then P1 else P0) * ρ * (if (measureH ρ P0 P1 d script).2.1 then P1 else P0)ᴴ) :=
+  rfl
+
+theorem measureH_out {n : Nat} (ρ P0 P1 : DMat n) (d : Det) (script : List Bool) :
+    (measureH ρ P0 P1 d script).2.1 = (outcomeOf d (probOf ρ P0) (probOf ρ P1) script).1 := rfl
 
 theorem probOf_of_trace {n : Nat} (ρ P : DMat n) (x : ℝ) (hx : 0 ≤ x) (h : Matrix.trace (ρ * P) = (x : ℂ)) :
     probOf ρ P = x := by
@@ -357,6 +374,59 @@ theorem measureH_tab (s : RunState) (hv : s.t.Valid) (hr : s.t.StabReal) (d : De
       unfold measureH
       simp only [h0, h1, hos]
       simp [proj_Zq_hermitian, hfix1, hfix2]
+
+open Classical in
+/-- on the state of a tableau the divisor of `apply_measurement` is positive (it is ½ or 1): the density-matrix backend
+    never divides by 0 there -/
+theorem measNormH_pos_tab (s : RunState) (hv : s.t.Valid) (hr : s.t.StabReal) (d : Det) (q : Nat) (hq : q < s.t.n) :
+    0 < measNormH (tabRho s.t.n s.t) (projZ s.t.n q false) (projZ s.t.n q true) d s.script := by
+  rw [projZ_eq _ _ hq, projZ_eq _ _ hq]
+  cases hp : s.t.pivot q with
+  | some p =>
+    have h0 : probOf (tabRho s.t.n s.t) (proj s.t.n (Zq q false)) = 1 / 2 :=
+      probOf_of_trace _ _ (1 / 2) (by norm_num) (by rw [prob_random s.t hv hr q p false hq hp]; norm_num)
+    have h1 : probOf (tabRho s.t.n s.t) (proj s.t.n (Zq q true)) = 1 / 2 :=
+      probOf_of_trace _ _ (1 / 2) (by norm_num) (by rw [prob_random s.t hv hr q p true hq hp]; norm_num)
+    unfold measNormH
+    simp only [h0, h1]
+    have : (if (outcomeOf d (1 / 2) (1 / 2) s.script).1 = true then (1 / 2 : ℝ) else 1 / 2) = 1 / 2 := by split <;> rfl
+    rw [this]
+    norm_num
+  | none =>
+    obtain ⟨ht1, ht0⟩ := prob_det s.t hv hr q hq hp
+    cases hrr : (s.t.measScratch q).r with
+    | false =>
+      rw [hrr] at ht1 ht0
+      have h0 : probOf (tabRho s.t.n s.t) (proj s.t.n (Zq q false)) = 1 :=
+        probOf_of_trace _ _ 1 (by norm_num) (by rw [ht1]; norm_num)
+      have h1 : probOf (tabRho s.t.n s.t) (proj s.t.n (Zq q true)) = 0 :=
+        probOf_of_trace _ _ 0 (by norm_num) (by rw [show (true : Bool) = !false from rfl, ht0]; norm_num)
+      have hos : (outcomeOf d 1 0 s.script).1 = false := by
+        cases d
+        · show decide (isclose0 1) = false
+          exact decide_eq_false not_isclose0_one
+        · show decide (¬ isclose0 0) = false
+          exact decide_eq_false (not_not.mpr isclose0_zero)
+        · simp [outcomeOf]
+      unfold measNormH
+      simp only [h0, h1, hos]
+      norm_num
+    | true =>
+      rw [hrr] at ht1 ht0
+      have h1 : probOf (tabRho s.t.n s.t) (proj s.t.n (Zq q true)) = 1 :=
+        probOf_of_trace _ _ 1 (by norm_num) (by rw [ht1]; norm_num)
+      have h0 : probOf (tabRho s.t.n s.t) (proj s.t.n (Zq q false)) = 0 :=
+        probOf_of_trace _ _ 0 (by norm_num) (by rw [show (false : Bool) = !true from rfl, ht0]; norm_num)
+      have hos : (outcomeOf d 0 1 s.script).1 = true := by
+        cases d
+        · show decide (isclose0 0) = true
+          exact decide_eq_true isclose0_zero
+        · show decide (¬ isclose0 1) = true
+          exact decide_eq_true not_isclose0_one
+        · simp [outcomeOf]
+      unfold measNormH
+      simp only [h0, h1, hos]
+      norm_num
 
 /-! ### after a measurement the qubit has a definite Z value; the reset channel -/
 
